@@ -20,6 +20,9 @@ CORPUS = ["address_line_1", "ipv4_address", "x_y_z", "HTTPStatus", "userID", "us
           "x1", "i18n", "utf8_string", "is_2fa_enabled", "float", "self", "cls", "type", "id", "match", "case", "_1", "_1x", "a_b", "A_B", "aB_c"]
 
 
+MESSAGE_ATTRS = sorted(n for n in dir(betterproto.Message) if not n.startswith("_"))
+
+
 def name_event(x):
     ev = {"x": av.cps(x), "res": "ok", "field": [], "field2": [], "method": [], "method2": [], "class": [], "class2": [], "enum_member": [],
           "back_orig": True, "back_snake": True, "back_camel": True, "keys": [], "ksnake": [-1], "kcamel": [-1], "case": {"x": x}}
@@ -36,6 +39,11 @@ def name_event(x):
             msg = C(**{f: "v"})
             ks = list(msg.to_dict(casing=betterproto.Casing.SNAKE))
             kc = list(msg.to_dict(casing=betterproto.Casing.CAMEL))
+            # another message class, which has no such field, sees the same keys first (it ignores them): what is remembered
+            # about a key must be remembered per class
+            Decoy = dataclasses.make_dataclass("M", [("zz_decoy", str, betterproto.string_field(1))], bases=(betterproto.Message,), eq=False, repr=False)
+            Decoy().from_dict({k: "v" for k in ks + kc + [x]})
+            Decoy.from_dict({k: "v" for k in ks + kc + [x]})
             ev["keys"] = [av.cps(k) for k in ks + kc]
             if len(ks) == 1 and len(kc) == 1:
                 ev["ksnake"], ev["kcamel"] = av.cps(ks[0]), av.cps(kc[0])
@@ -80,6 +88,7 @@ def run(ctx):
     kws = list(keyword.kwlist) + list(getattr(keyword, "softkwlist", []))
     words = kws + [b for b in dir(builtins) if b.isidentifier()]
     xs += words + [w.capitalize() for w in words] + [w.upper() for w in words] + CORPUS
+    xs += MESSAGE_ATTRS        # proto fields named like the public methods of betterproto.Message
     xs = sorted(set(x for x in xs if x and (x[0].isalpha() or x[0] == "_") and all(c.isalnum() or c == "_" for c in x) and x.isascii()))
     ctx.exhaustive = not quick
     events = ctx.pmap(name_event, xs)
@@ -87,7 +96,7 @@ def run(ctx):
         ctx.count_case(x, not (x.isalpha() and x.islower()))
     ctx.sample({"identifier": "address_line_1", "event": {k: (av.uncps(v) if isinstance(v, list) and v and isinstance(v[0], int) else v)
                                                             for k, v in name_event("address_line_1").items() if k not in ("case", "keys")}})
-    ctx.validate("Trace_Naming", events, header={"keywords": [av.cps(k) for k in keyword.kwlist], "enum_name": av.cps("Enum")}, shard=8000)
+    ctx.validate("Trace_Naming", events, header={"keywords": [av.cps(k) for k in keyword.kwlist], "enum_name": av.cps("Enum"), "message_attrs": [av.cps(k) for k in MESSAGE_ATTRS]}, shard=8000)
     drift = sorted(set((i, tuple(d)) for i, d in ctx.drift.get("Trace_Naming", [])))
     byid = {e["id"]: e for e in events}
     ctx.notes["model_drift_cases"] = len(drift)
